@@ -192,7 +192,7 @@ def structure(sub_spelling):
     members = [Entry("Highest sub-index", 0x2100, 0, 0x05, "const", default=3, default_text="3"),
                Entry("Member A", 0x2100, 1, 0x04, "rw", default=v2, default_text=num(v2), pdo=1,
                      factor="0.5", unit="mm", description="first member"),
-               Entry("Member C", 0x2100, 3, 0x05, "wo", default=v3, default_text=num(v3, "hexl")),
+               Entry("Member #3 C", 0x2100, 3, 0x05, "wo", default=v3, default_text=num(v3, "hexl")),
                Entry("Member at sub 0x1B", 0x2100, 0x1B, 0x06, "rw", default=v1, default_text=num(v1))]
     d.record("A record", 0x2100, members, "0x9", sub_spelling, storage="RAM")
     amembers = [Entry("Number of entries", 0x2200, 0, 0x05, "ro", default=2, default_text="0x2"),
@@ -201,7 +201,7 @@ def structure(sub_spelling):
     d.record("An array", 0x2200, amembers, "0x8", sub_spelling)
     dom = Entry("Firmware", 0x2300, 0, 0x0F, "wo", object_type="0x2")
     d.variable(dom)
-    txt = Entry("Device name", 0x2301, 0, 0x09, "const", default="Drive 3000 rev B", default_text="Drive 3000 rev B")
+    txt = Entry("Device name", 0x2301, 0, 0x09, "const", default="Drive 3000 rev B #7", default_text="Drive 3000 rev B #7")
     d.variable(txt)
     octs = Entry("Key", 0x2302, 0, 0x0A, "rw", default=bytes.fromhex("00ff10a5"), default_text="00ff10a5")
     d.variable(octs)
@@ -211,7 +211,7 @@ def structure(sub_spelling):
     d.variable(dotted)
     # 12 comment lines (more than 9: numeric, not alphabetical, order), the count in hex for one spelling, the
     # section's keys not in order
-    clines = ["first line", "second = line"] + ["line number %d" % i for i in range(3, 13)]
+    clines = ["first line", "second = line"] + ["line # %d" % i for i in range(3, 13)]
     ckeys = ["Line%d=%s" % (i + 1, t) for i, t in enumerate(clines)]
     d.section("Comments", ["Lines=%s" % ("12" if sub_spelling == "sub" else "0xC")] + ckeys[6:] + ckeys[:6])
     od = _import(d.text())
@@ -233,7 +233,7 @@ def structure(sub_spelling):
     _check_var(od[0x2301], txt, tag + "/string")
     _check_var(od[0x2302], octs, tag + "/octets")
     _check_var(od[0x2303], real, tag + "/real")
-    sx.prove(od["A record"] is rec and od["A record.Member A"] is rec[1] and od["A record"]["Member C"] is rec[3]
+    sx.prove(od["A record"] is rec and od["A record.Member A"] is rec[1] and od["A record"]["Member #3 C"] is rec[3] and od["A record.Member #3 C"] is rec[3]
              and od[0x2100][1] is rec["Member A"], "lookup by index, name and Parent.Child", tag + "/lookup")
     _check_var(od[0x2304], dotted, tag + "/dotted")
     sx.prove(od["Max. motor speed"] is od[0x2304] and "Max. motor speed" in od, "top-level name containing a full stop",
@@ -246,7 +246,7 @@ def compact(with_names, n):
     v = sx.fresh_int("v", 0, 0xFFFFFFFF)
     pdo = sx.fresh_int("pdo", 0, 1)
     tmpl = Entry("tmpl", 0x2400, 1, 0x07, "rw", default=v, default_text=num(v, "hex"), pdo=pdo)
-    names = ["Chan %% %d" % i for i in range(1, n + 1)] if with_names else None
+    names = ["Chan %% #%d in" % i for i in range(1, n + 1)] if with_names else None
     d = _base_doc()
     d.compact_array("Compact array", 0x2400, n, tmpl, names)
     od = _import(d.text())
